@@ -412,9 +412,7 @@ pub fn check_set(w: &mut World, c: &SetCase) -> CaseResult {
     let n = c.n.min(MAX_N);
     let mis = if c.at == At::Mid { (c.mis & 63) as usize } else { 0 };
     let (len, off) = operand_region(c.at, mis, n);
-    // make sure the fill byte differs from what the destination holds: choose the salt so that
-    // no byte of the pattern is fixed... the pattern takes all values, so instead pre-fill the
-    // destination with !fill.
+    // the destination is pre-filled with !fill, so every byte a correct memset writes changes
     w.reset();
     w.place(0, c.at, len, c.salt);
     let fill = c.c as u8;
